@@ -5,6 +5,7 @@ C15.a key agreement at every level of the assembly JSON, including the key -> fi
 C15.b the PUSH0 spelling is the only place where an item's name may change between parse and serialise
 C15.c PUSHLIB index / real value: `value` is renumbered only for PUSHLIB and the writer emits real_value
 C15.d per-section containers of the serialiser are fresh
+C15.e plain-text constants keep their value in every spelling
 """
 import ast
 
